@@ -236,6 +236,48 @@ def two_clients(ctx):
                 return
 
 
+
+def requests_keep_negotiation(ctx):
+    """what the handshake negotiated holds for the life of the connection: after a bind in which both sides advertised header signing (or the
+    server did not), EVERY later request and reply on that client is wrapped / unwrapped with that same setting — a reply PDU's flags (where
+    bit 0x04 means "cancel pending", not "header signing") do not renegotiate it (both clients, three requests)"""
+    alpha = server_alphabet(ctx.rng)
+    for sign in (True, False):
+        for resp_flags in (3, 3 | 4):
+            for use_async in (False, True):
+                acks = [alpha["ackAA1t" if sign else "ackAA0t"](0), alpha["ackAA1t" if sign else "ackAA0t"](1)]
+                prov = rpcfmt.ScriptedProvider(script=[(b"c1", False), (b"c2", True)])
+                replies = list(acks) + [rpcsim.sealed_response(bytes([i]) * 20, 16, sign, flags=resp_flags)[0] for i in range(3)]
+                res = {"err": None}
+
+                def drive_sync():
+                    sock = rpcsim.FakeSocket(replies=list(replies))
+                    c = rpcsim.sync_client(sock, prov)
+                    c.bind(contexts())
+                    for i in range(3):
+                        c.request(0, 0, bytes([65 + i]) * 9)
+
+                async def drive_async():
+                    reader = asyncio.StreamReader()
+                    pending = list(replies)
+                    w = rpcsim.FakeWriter(lambda data: reader.feed_data(pending.pop(0)) if pending else reader.feed_eof())
+                    c = rpcsim.async_client(reader, w, prov)
+                    await asyncio.wait_for(c.bind(contexts()), 2)
+                    for i in range(3):
+                        await asyncio.wait_for(c.request(0, 0, bytes([65 + i]) * 9), 2)
+                try:
+                    asyncio.run(drive_async()) if use_async else drive_sync()
+                except Exception as e:  # noqa
+                    res["err"] = canon_exc(e)
+                ctx.count("requests_keep_negotiation")
+                got = [bool(w_[3]) for w_ in prov.wrap_calls] + [bool(u_[4]) for u_ in prov.unwrap_calls]
+                inp = {"scenario": "requests_keep_negotiation", "negotiated_header_signing": sign, "reply_flags": resp_flags, "async": use_async}
+                if res["err"] is not None or got != [sign] * 6:
+                    ctx.violation("header signing negotiated at bind time is not what later requests / replies on the connection are protected with",
+                                  inp, f"error={res['err']} wrap/unwrap sign_header={got}", f"three requests and replies, all {sign}")
+                    return
+
+
 def run(ctx):
     from dpapi_ng import _client as cl
     from dpapi_ng._rpc import _pdu
@@ -358,6 +400,7 @@ def run(ctx):
         ctx.compare_batch(cases[i:i + 3000], nontrivial=lambda line, impl: True)
     request_after_bind(ctx)
     two_clients(ctx)
+    requests_keep_negotiation(ctx)
 
 
 def search(ctx, broken, disagreements):
